@@ -56,6 +56,12 @@ var c04Hostile = []string{
 	`var u#K# = F("#K#");`,
 	`var u#K# = new N("#K#");`,
 	`F("#K#");`,
+	`function e#K#(x = $("#K#", "default of empty function")) {} e#K#();`,
+	`function e#K#(a, x = $("#K#", "default of empty function")) {} e#K#(1); e#K#(1, 2);`,
+	`function e#K#({x = $("#K#", "default in pattern")} = {}) {} e#K#();`,
+	`var e#K# = function (x = $("#K#", "default of empty function")) {}; e#K#();`,
+	`var e#K# = (x = $("#K#", "default of empty arrow")) => {}; e#K#();`,
+	`function e#K#(...[x = $("#K#", "default in rest pattern")]) {} e#K#();`,
 	`var u#K# = (0, F)("#K#");`,
 	`var u#K# = F?.("#K#");`,
 	`var u#K# = [F("#K#")];`,
@@ -214,6 +220,7 @@ func checkC04(r *Run) {
 		"bundled with tree shaking default/true/false × minify × format and run natively; traces of all bundles must equal the native trace. Annotation sub-workload: sideEffects:false packages and @__PURE__/@__NO_SIDE_EFFECTS__ calls, whose own events (keys R:) may disappear and nothing else; " +
 		"non-trivial = distinct project whose native run produced events from hostile statements")
 	r.Assume("temporal-dead-zone errors, non-constructible heritage and patched built-ins are not generated (documented assumptions of the analysis)")
+	c04CrossBuild(r)
 	scratch, _ := os.MkdirTemp("/tmp", "verif-c04-")
 	defer os.RemoveAll(scratch)
 	nproj := r.pick(220, 4000)
@@ -443,4 +450,68 @@ func c04StmtClass(stmt string) string {
 	re := strings.NewReplacer()
 	_ = re
 	return normErr(reKeyLike.ReplaceAllString(out, "K"))
+}
+
+// c04CrossBuild: annotations belong to one build. A program full of unused calls to well-known globals is bundled
+// first in this process (nothing in the process has been configured yet), then other builds run with `pure` names and
+// `define` keys that name those very globals, then the first program is bundled again without any annotation: the two
+// outputs of the un-annotated program must be byte-identical (and keep every call), i.e. what one build was told
+// to treat as removable must not leak into the next one through process-wide tables.
+func c04CrossBuild(r *Run) {
+	prog := "console.log(\"kept-1\");\nObject.defineProperty(globalThis, \"zz\", {value: 1, configurable: true});\nReflect.set(globalThis, \"yy\", 2);\nObject.freeze({});\nJSON.stringify({});\n" +
+		"Math.random();\nSymbol.for(\"kept\");\nArray.isArray([]);\nObject.keys({});\nvar unusedA = Object.create(null);\nvar unusedB = Math.abs(-1);\nconsole.error(\"kept-2\", Math.PI, Number.MAX_SAFE_INTEGER);\n"
+	names := []string{"console.log", "console.error", "Object.defineProperty", "Reflect.set", "Object.freeze", "JSON.stringify", "Math.random", "Symbol.for", "Array.isArray", "Object.keys", "Object.create", "Math.abs"}
+	build := func(pure []string, define map[string]string, minify bool) (string, bool) {
+		res, pan := buildSafe(api.BuildOptions{EntryPoints: []string{"/entry.js"}, Bundle: true, Write: false, Outdir: "/out", Format: api.FormatESModule, TreeShaking: api.TreeShakingTrue,
+			MinifySyntax: minify, Pure: pure, Define: define, Plugins: []api.Plugin{memPlugin(map[string]string{"/entry.js": prog})}, LogLevel: api.LogLevelSilent})
+		r.Eval(1)
+		if pan != "" || len(res.Errors) > 0 || len(res.OutputFiles) == 0 {
+			return "", false
+		}
+		return string(res.OutputFiles[0].Contents), true
+	}
+	type before struct {
+		code string
+		ok   bool
+	}
+	var first [2]before
+	for i, minify := range []bool{false, true} {
+		c, ok := build(nil, nil, minify)
+		first[i] = before{c, ok}
+	}
+	// builds that annotate the same globals (every name on its own, then all together, then as define keys)
+	for _, n := range names {
+		build([]string{n}, nil, false)
+	}
+	build(names, nil, true)
+	build(nil, map[string]string{"Math.PI": "3", "Number.MAX_SAFE_INTEGER": "1", "console.log": "noop", "Object.keys": "keysOf"}, false)
+	build(names, map[string]string{"Math.PI": "3"}, true)
+	compared := 0
+	for i, minify := range []bool{false, true} {
+		c, ok := build(nil, nil, minify)
+		if !ok || !first[i].ok {
+			continue
+		}
+		compared++
+		r.Nontrivial(fmt.Sprint("cross-build", minify))
+		if c != first[i].code {
+			missing := []string{}
+			for _, n := range names {
+				if strings.Contains(first[i].code, n+"(") && !strings.Contains(c, n+"(") {
+					missing = append(missing, n)
+				}
+			}
+			r.Violation("treeshake:annotation-leaks-into-later-build", fmt.Sprintf("the same un-annotated program bundled before and after other builds that used pure/define for well-known globals gives different output (minify-syntax=%v); calls that disappeared: %v", minify, missing),
+				map[string]interface{}{"input": prog, "output_before": first[i].code, "output_after": c, "pure_names_used_in_between": names})
+		}
+		for _, n := range []string{"console.log(\"kept-1\")", "Reflect.set(", "Object.defineProperty("} {
+			if !strings.Contains(c, n) {
+				r.Violation("treeshake:unannotated-global-call-removed", fmt.Sprintf("un-annotated top-level call %s… is missing from the bundle (minify-syntax=%v)", n, minify), map[string]interface{}{"input": prog, "output": c})
+			}
+		}
+	}
+	r.Count("cross_build_comparisons", compared)
+	if compared == 0 {
+		r.Inconclusive("the cross-build annotation program could not be bundled")
+	}
 }
